@@ -18,6 +18,7 @@ package croncontroller
 
 import (
 	"fmt"
+	"time"
 
 	"github.com/davecgh/go-spew/spew"
 	"k8s.io/client-go/tools/cache"
@@ -53,8 +54,19 @@ func (w *InformerWorker) WorkerName() string {
 }
 
 func (w *InformerWorker) Init() {
+	// JobConfigs that already exist when the controller starts are loaded into the
+	// schedule by the CronWorker (including catching up on missed schedules), so
+	// only JobConfigs created from now on need to be added to the schedule here.
+	startTime := Clock.Now().Truncate(time.Second)
+
 	// Add event handler when we get JobConfig updates.
 	w.jobconfigInformer.Informer().AddEventHandler(cache.ResourceEventHandlerFuncs{
+		AddFunc: func(obj interface{}) {
+			if rjc, err := eventhandler.Executionv1alpha1JobConfig(obj); err == nil &&
+				!rjc.CreationTimestamp.Time.Before(startTime) {
+				w.enqueueFlush(rjc)
+			}
+		},
 		UpdateFunc: func(oldObj, newObj interface{}) {
 			w.handleUpdate(oldObj, newObj)
 		},
